@@ -7,7 +7,9 @@
 # -tags verif,noasm).  Exit status 0 iff there is no mismatch.  Nothing is written outside the
 # work directory ($BODYTEST_WORK, default: a fresh mktemp -d, removed on success).
 #
-# Environment: BODYTEST_WORK (work dir, kept), BODYTEST_JOBS (parallel shards, default nproc).
+# Environment: BODYTEST_WORK (work dir, kept), BODYTEST_JOBS (parallel shards, default nproc),
+# BODYTEST_KINDS (default "xxh dec cmp cmpfar": xxh32, decodeBlock, the fast block compressor, and
+# four 64 KiB compressor cases that take about a minute each in the list-based model).
 set -u
 [ $# -ge 1 ] || { echo "usage: run.sh <repo-dir> [<translated-repo-dir>]" >&2; exit 2; }
 REPO=$(cd "$1" && pwd) || exit 2
@@ -26,11 +28,11 @@ rm -rf "$W/coq" "$W/ml" "$W/cases" "$W/out"; mkdir -p "$W/coq" "$W/ml" "$W/cases
 "$W/gen" "$TREPO" "$W/coq" > "$W/out/gen.log" 2>&1 || { cat "$W/out/gen.log" >&2; fail "translation aborted"; }
 cp "$COQ/GoT.v" "$W/coq/"
 T0=$(date +%s.%N)
-for f in GoT GenXXHBody GenDecodeBody; do
+for f in GoT GenXXHBody GenDecodeBody GenCompressBody; do
   (cd "$W/coq" && timeout 600 coqc -Q . LZ4V $f.v) > "$W/out/coqc-$f.log" 2>&1 || { cat "$W/out/coqc-$f.log" >&2; fail "coqc $f.v failed"; }
 done
 T1=$(date +%s.%N)
-if grep -nE '\b(Axiom|Parameter|Admitted|admit)\b' "$W/coq/GoT.v" "$W/coq/GenXXHBody.v" "$W/coq/GenDecodeBody.v" | grep -v '^[^:]*:[0-9]*: *(\*' ; then fail "axiom / admitted found"; fi
+if grep -nE '\b(Axiom|Parameter|Admitted|admit)\b' "$W/coq/GoT.v" "$W/coq/GenXXHBody.v" "$W/coq/GenDecodeBody.v" "$W/coq/GenCompressBody.v" | grep -v '^[^:]*:[0-9]*: *(\*' ; then fail "axiom / admitted found"; fi
 
 # 2. extraction and the evaluator
 (cd "$W/ml" && timeout 600 coqc -Q ../coq LZ4V "$HERE/Extract.v" -o "$W/ml/Extract.vo") > "$W/out/extract.log" 2>&1 || { cat "$W/out/extract.log" >&2; fail "extraction failed"; }
@@ -51,13 +53,18 @@ replace github.com/pierrec/lz4/v4 => $REPO
 MOD
 [ -f "$REPO/go.sum" ] && cp "$REPO/go.sum" "$W/cases/go.sum"
 (cd "$W/cases" && go build -tags verif,noasm -o "$W/casesbin" .) > "$W/out/gobuild.log" 2>&1 || { cat "$W/out/gobuild.log" >&2; fail "building the case generator failed"; }
-"$W/casesbin" xxh > "$W/out/xxh.cases" || fail "case generation (xxh) failed"
-"$W/casesbin" dec > "$W/out/dec.cases" || fail "case generation (dec) failed"
+KINDS=${BODYTEST_KINDS:-xxh dec cmp cmpfar}
+for kind in $KINDS; do
+  "$W/casesbin" $kind > "$W/out/$kind.cases" || fail "case generation ($kind) failed"
+done
+# the tables of the compressor are lists of 65536 elements; List.firstn / app are not tail recursive
+ulimit -s unlimited 2>/dev/null || ulimit -s 1000000 2>/dev/null || true
 
 # 4. evaluate in shards
 status=0
-for kind in xxh dec; do
+for kind in $KINDS; do
   pids=()
+  TK0=$(date +%s.%N)
   for ((k = 0; k < JOBS; k++)); do
     "$W/eval" "$W/out/$kind.cases" $k $JOBS > "$W/out/$kind.$k.res" 2>&1 &
     pids+=($!)
@@ -71,10 +78,10 @@ for kind in xxh dec; do
     cases=$((cases + c)); mis=$((mis + m))
   done
   grep -h '^MISMATCH' "$W/out/$kind".*.res | sort -t' ' -k3 -n | head -${BODYTEST_SHOW:-20}
-  echo "bodytest: $kind: cases=$cases mismatches=$mis (lines in file: $(wc -l < "$W/out/$kind.cases"))"
+  echo "bodytest: $kind: cases=$cases mismatches=$mis (lines in file: $(wc -l < "$W/out/$kind.cases")) evaluation $(printf '%.0f' "$(echo "$(date +%s.%N) - $TK0" | bc)")s"
   [ "$mis" -eq 0 ] || status=1
   [ "$cases" -eq "$(wc -l < "$W/out/$kind.cases")" ] || { echo "bodytest: $kind: not every case was evaluated" >&2; status=1; }
 done
-printf 'bodytest: coqc GoT+GenXXHBody+GenDecodeBody: %.1fs\n' "$(echo "$T1 - $T0" | bc)"
+printf 'bodytest: coqc GoT+GenXXHBody+GenDecodeBody+GenCompressBody: %.1fs\n' "$(echo "$T1 - $T0" | bc)"
 if [ $status -eq 0 ] && [ $KEEP -eq 0 ]; then rm -rf "$W"; else echo "bodytest: work directory: $W"; fi
 exit $status
